@@ -1153,6 +1153,66 @@ def rule_builtin_names(chk, prog, tier):
     r.exhaustive = True
 
 
+# ------------------------------------------------------------------ C10.s parameter-type-list syntax
+
+def rule_paramlist_syntax(chk, prog, tier):
+    r = chk.rule('C10.s', 'a parameter-type-list is empty, `...`, or parameter declarations separated by single commas, optionally followed by `, ...`: a trailing or doubled comma, a missing comma and anything after `...` are diagnosed',
+                 floor=15, oracle='C11 6.7.6p1 (parameter-type-list), C23 (`...` alone)')
+    import re
+    dfn = prog.require_func('declarator', 'decl.c')
+    FORMS = ['', 'P', 'P , P', 'P , P , P', '...', 'P , ...', 'P , P , ...', 'P ,', ', P', 'P , , P', 'P P', '... , P', 'P ...', 'P , ... ,', ',', 'P , ... P', '... ...', 'P , P ,']
+    RX = re.compile(r'^(|\.\.\.|P(,P)*(,\.\.\.)?)$')
+    for form in FORMS:
+        def runner(it):
+            w = World(prog, it=it, target='x86_64-sysv')
+            stream = [('TIDENT', 'f'), ('TLPAREN', None)] + [{'P': ('PARAM', None), ',': ('TCOMMA', None), '...': ('TELLIPSIS', None)}[x] for x in form.split()] + [('TRPAREN', None), ('TSEMICOLON', None)]
+            tokobj = it.gobj('tok'); st = {'i': 0}
+            def cur(): return stream[min(st['i'], len(stream) - 1)]
+            def load():
+                k, v = cur()
+                tokobj.f[('kind',)] = ev(prog, 'TINT' if k == 'PARAM' else k)
+                tokobj.f[('lit',)] = Ptr(it.mkstr(list(b'f'), 'f'), (0,)) if k == 'TIDENT' else None
+                tokobj.f[('loc', 'file')] = None; tokobj.f[('loc', 'line')] = 1; tokobj.f[('loc', 'col')] = 1
+            def nxt(i2, a, e): st['i'] += 1; load(); return None
+            def consume(i2, a, e):
+                if tokobj.f[('kind',)] == a[0] and cur()[0] != 'PARAM': nxt(i2, a, e); return 1
+                return 0
+            def expect(i2, a, e):
+                if tokobj.f[('kind',)] != a[0] or cur()[0] == 'PARAM': raise Terminal('error', 'expected token')
+                nxt(i2, a, e); return None
+            def parameter(i2, a, e):
+                if cur()[0] != 'PARAM': raise Terminal('error', 'no type in parameter declaration')
+                nxt(i2, a, e)
+                d = Obj('param', 'heap'); d.f.update({('name',): None, ('type',): w.t('int'), ('next',): None})
+                return Ptr(d, ())
+            def mkscope(i2, a, e):
+                o = Obj('scope', 'heap'); o.f[('parent',)] = a[0]; return Ptr(o, ())
+            it.models.update({'next': nxt, 'consume': consume, 'expect': expect, 'peek': lambda i2, a, e: 0, 'parameter': parameter, 'mkscope': mkscope, 'delscope': lambda i2, a, e: a[0].obj.f[('parent',)],
+                              'scopegetdecl': lambda i2, a, e: None, 'scopeputdecl': lambda i2, a, e: None, 'attr': lambda i2, a, e: 0, 'gnuattr': lambda i2, a, e: 0, 'typequal': lambda i2, a, e: 0, 'istypename': lambda i2, a, e: 0,
+                              'xmalloc': lambda i2, a, e: Ptr(Obj('heap@%s' % e.get('line'), 'heap'), ()),
+                              'error': lambda i2, a, e: (_ for _ in ()).throw(Terminal('error', cmodel.fmt_of(i2, a, 1))),
+                              'fatal': lambda i2, a, e: (_ for _ in ()).throw(Terminal('fatal', cmodel.fmt_of(i2, a, 0)))})
+            load()
+            fs = Ptr(Obj('filescope', 'heap'), ()); fs.obj.f[('parent',)] = None
+            nameobj = Obj('name', 'local'); nameobj.f[()] = None
+            fsobj = Obj('funcscope', 'local'); fsobj.f[()] = UNINIT
+            res = it.call(dfn, [fs, StructVal({('type',): w.t('int'), ('qual',): 0, ('expr',): None}), Ptr(nameobj, ()), Ptr(fsobj, ()), 0])
+            t = res.f[('type',)]
+            return cur()[0], it.load(t.obj, t.path + ('u', 'func', 'nparam')), it.load(t.obj, t.path + ('u', 'func', 'isvararg'))
+        runs = explore(prog, runner, {}, max_runs=4, on_unsupported='keep')
+        key = 'paramlist:( %s )' % form
+        if len(runs) != 1 or runs[0].outcome == 'unsupported':
+            raise AnalysisBroken('%s: %s' % (key, [(x.outcome, x.detail) for x in runs][:2]))
+        ok = bool(RX.match(form.replace(' ', '')))
+        if ok:
+            want = ('TSEMICOLON', form.split().count('P'), int('...' in form))
+            r.instance(runs[0].outcome == 'return' and tuple(int(x) if not isinstance(x, str) else x for x in runs[0].value) == want, key, 'decl.c:declaratortypes',
+                       'valid: %d parameters%s, consumed up to the `;`; cproc: %s %s' % (want[1], ', variadic' if want[2] else '', runs[0].outcome, runs[0].value if runs[0].outcome == 'return' else runs[0].detail))
+        else:
+            r.instance(runs[0].outcome == 'terminal:error', key, 'decl.c:declaratortypes', 'not a parameter-type-list: must be diagnosed; cproc: %s %s' % (runs[0].outcome, runs[0].value if runs[0].outcome == 'return' else ''))
+    r.exhaustive = False
+
+
 def run(chk, tier):
     from props import c01f
     prog = facts.programs()['cproc-qbe']
@@ -1177,6 +1237,7 @@ def run(chk, tier):
     chk.guard('C10.p', lambda: rule_restrict(chk, prog, tier))
     chk.guard('C10.q', lambda: rule_structdecl_syntax(chk, prog, tier))
     chk.guard('C10.r', lambda: rule_builtin_names(chk, prog, tier))
+    chk.guard('C10.s', lambda: rule_paramlist_syntax(chk, prog, tier))
     from props import c08
     chk.guard('C08.e', lambda: c08.rule_valist(chk, prog, tier))        # va_arg of a structure or union (unsupported) is diagnosed
     from props import c05
